@@ -273,6 +273,63 @@ def Svc.step (s : Svc) (e : Event) : Svc :=
 
 def Svc.exec (s : Svc) (es : List Event) : Svc := es.foldl Svc.step s
 
+/-! ### vocabulary of the machine translation (`Frequenz/Extracted/ActorLoops.lean`)
+
+The translator (`tools/extractors/actor_loops.py`) turns `Actor._run_loop`, `Actor.start`, `BackgroundService.wait /
+stop / _wait_all / cancel / is_running` and `cancel_and_await` into one Lean function per *segment* of the coroutine
+(from its entry, or from the resumption of an `await`, up to the next `await` or its end).  The operations of the
+collaborators — the task table standing for the set `self._tasks`, `asyncio.Task` methods, exception groups — are the
+primitives below; which of them the code applies, in which order and under which conditions, is what is translated.
+`Frequenz/Lemmas/ActorTie.lean` proves the event machine above equal to those segment functions. -/
+namespace Src
+
+/-- `asyncio.Task.cancel()` on a task of the table: no effect on a finished task. -/
+def taskCancel (t : Tsk) : Tsk := if t.isDone then t else { t with cancelReq := true }
+
+/-- `bool(self._tasks)`. -/
+def nonEmpty (ts : List Tsk) : Bool := ts.any (·.owned)
+
+/-- `any(p(task) for task in self._tasks)` (also as a `for … if …: return True` search loop). -/
+def anyMember (p : Tsk → Bool) (ts : List Tsk) : Bool := ts.any (fun t => t.owned && p t)
+
+/-- `for task in self._tasks: <method call on task>`. -/
+def forMembers (f : Tsk → Tsk) (ts : List Tsk) : List Tsk := ts.map (fun t => if t.owned then f t else t)
+
+/-- The set handed to `asyncio.wait(self._tasks)`; with `ALL_COMPLETED` it is also the `done` set it returns. -/
+def snapshot (ts : List Tsk) : List Nat := ownedIds ts
+
+/-- `self._tasks = self._tasks - done` (also `.difference(done)`, `-=`, `.difference_update(done)`). -/
+def remove (ids : List Nat) (ts : List Tsk) : List Tsk := unown ids ts
+
+/-- Iterating a set of tasks: the order is taken to be that of the task table. -/
+def tasksOf (tbl : List Tsk) (ids : List Nat) : List Tsk := tbl.filter (fun t => ids.contains t.id)
+
+/-- `task.result()` of a finished task: `none` = returns, `some e` = raises `e`. -/
+def result (t : Tsk) : Option (Nat × Outcome) := errOf t
+
+/-- `self._tasks.clear()`. -/
+def clear (ts : List Tsk) : List Tsk := clearOwned ts
+
+/-- `self._tasks.add(asyncio.create_task(self._run_loop()))`. -/
+def addLoopTask (ts : List Tsk) : List Tsk := ts ++ [newLoopTask ts.length]
+
+/-- `group.split(asyncio.CancelledError)[1]`: the members that are no `CancelledError` (`None` when there is none). -/
+def splitRest (es : List (Nat × Outcome)) : List (Nat × Outcome) := es.filter (fun e => e.2 ≠ .cancelled)
+
+/-- Where a `wait()` / `stop()` call stands at the end of a segment. -/
+inductive CallRes
+  | blocked (ts : List Tsk) (batch : List Nat) (acc : List (Nat × Outcome))   -- in `await asyncio.wait(batch)`
+  | finished (ts : List Tsk) (raised : List (Nat × Outcome))                   -- returned (`[]`) / raised the group
+deriving Repr
+
+/-- Where a `cancel_and_await(task)` call stands at the end of a segment. -/
+inductive CaRes
+  | blocked                                    -- in `await task`
+  | returned (raised : Option Outcome)
+deriving DecidableEq, Repr
+
+end Src
+
 /-! ### several actors and `run(*actors)` -/
 
 structure RunRec where
